@@ -234,6 +234,106 @@ theorem parseInput_nil (t : Text) : Alias.parseInput [] t = ParseWord.parseInput
     funext txt i sy; exact fill_miss [] txt i sy (by simp)
   rw [this]
 
+
+/-! ## typing the IPA instead: the same step -/
+open ParseWord in
+/-- every non-empty prefix of a grapheme of the table is a prefix key -/
+theorem isPrefixKey_of_prefix (g p : Text) (X : Seg) (hg : (g, X) ∈ Gen.cardinals) (hp : p.isPrefixOf g = true) :
+    ParseWord.isPrefixKey p = true := by
+  unfold ParseWord.isPrefixKey
+  rw [List.any_eq_true]
+  exact ⟨(g, X), hg, hp⟩
+
+theorem lookup_mem (g : Text) (X : Seg) (h : ParseWord.lookup g = some X) : (g, X) ∈ Gen.cardinals := by
+  unfold ParseWord.lookup at h
+  cases hf : Gen.cardinals.find? (fun p => p.1 = g) with
+  | none => rw [hf] at h; cases h
+  | some p =>
+    rw [hf] at h
+    have hm := List.mem_of_find?_eq_some hf
+    have hk : p.1 = g := by simpa using List.find?_some hf
+    obtain ⟨k, s⟩ := p
+    simp at h hk
+    subst hk; subst h; exact hm
+
+/-- the longest-match loop walks through a grapheme that stands in the text and stops after it, when what follows
+    neither extends it to a longer prefix of the table nor is the `^` tie shorthand -/
+theorem growBuffer_through (g : Text) (X : Seg) (pre rest : Text) (hg : (g, X) ∈ Gen.cardinals)
+    (hipa : ∀ c ∈ g, ParseWord.toIpa c = c)
+    (hstop : ∀ c, rest.head? = some c → ParseWord.isPrefixKey (g ++ [ParseWord.toIpa c]) = false ∧ c ≠ 0x5E) :
+    ∀ (n j fuel : Nat), j + n = g.length → n ≤ fuel →
+      ParseWord.growBuffer (pre ++ g ++ rest) fuel (pre.length + j) (g.take j) = (g, pre.length + g.length) := by
+  intro n
+  induction n with
+  | zero =>
+    intro j fuel hj _
+    have hj' : j = g.length := by omega
+    subst hj'
+    rw [List.take_length]
+    cases fuel with
+    | zero => rfl
+    | succ fuel =>
+      unfold ParseWord.growBuffer
+      have hidx : (pre ++ g ++ rest)[pre.length + g.length]? = rest.head? := by
+        rw [List.append_assoc, List.getElem?_append_right (by omega)]
+        simp only [Nat.add_sub_cancel_left]
+        rw [List.getElem?_append_right (by omega)]
+        simp [List.head?_eq_getElem?]
+      rw [hidx]
+      cases hr : rest.head? with
+      | none => rfl
+      | some c =>
+        obtain ⟨h1, h2⟩ := hstop c hr
+        simp only [h1, Bool.false_eq_true, if_false, h2]
+  | succ n ih =>
+    intro j fuel hj hfuel
+    cases fuel with
+    | zero => omega
+    | succ fuel =>
+      have hjlt : j < g.length := by omega
+      unfold ParseWord.growBuffer
+      have hidx : (pre ++ g ++ rest)[pre.length + j]? = some g[j] := by
+        rw [List.append_assoc, List.getElem?_append_right (by omega)]
+        simp only [Nat.add_sub_cancel_left]
+        rw [List.getElem?_append_left hjlt]
+        exact List.getElem?_eq_getElem hjlt
+      rw [hidx]
+      simp only
+      have hc : ParseWord.toIpa g[j] = g[j] := hipa _ (List.getElem_mem hjlt)
+      have htake : g.take j ++ [g[j]] = g.take (j + 1) := by rw [List.take_succ_eq_append_getElem hjlt]
+      rw [hc, htake]
+      have hpk : ParseWord.isPrefixKey (g.take (j + 1)) = true :=
+        isPrefixKey_of_prefix g _ X hg (by simpa using List.take_prefix (j + 1) g |> List.isPrefixOf_iff_prefix.mpr)
+      simp only [hpk, if_true]
+      have := ih (j + 1) fuel (by omega) (by omega)
+      simpa [Nat.add_assoc] using this
+
+/-- **a typed grapheme is one step too**: where the grapheme `g` of segment `X` stands in the text and is not continued,
+    the plain word parser appends exactly `X` and moves past exactly `g` — the effect `fill_hit` gives an alias key -/
+theorem typed_grapheme (g : Text) (X : Seg) (pre rest : Text) (sy : Syll) (hne : g ≠ [])
+    (hlook : ParseWord.lookup g = some X) (hipa : ∀ c ∈ g, ParseWord.toIpa c = c)
+    (hstop : ∀ c, rest.head? = some c → ParseWord.isPrefixKey (g ++ [ParseWord.toIpa c]) = false ∧ c ≠ 0x5E) :
+    ParseWord.fillSegments (pre ++ g ++ rest) pre.length sy = .ok ({ sy with segs := sy.segs ++ [X] }, pre.length + g.length) := by
+  have hg := lookup_mem g X hlook
+  cases g with
+  | nil => exact absurd rfl hne
+  | cons c0 g' =>
+    unfold ParseWord.fillSegments
+    have hidx : (pre ++ (c0 :: g') ++ rest)[pre.length]? = some c0 := by
+      rw [List.append_assoc, List.getElem?_append_right (by omega)]
+      simp
+    rw [hidx]
+    simp only
+    have hc0 : ParseWord.toIpa c0 = c0 := hipa c0 (by simp)
+    rw [hc0]
+    have hpk : ParseWord.isPrefixKey [c0] = true :=
+      isPrefixKey_of_prefix (c0 :: g') [c0] X hg (by simp [List.isPrefixOf])
+    simp only [hpk, if_true]
+    have hgrow := growBuffer_through (c0 :: g') X pre rest hg hipa hstop g'.length 1 (pre ++ (c0 :: g') ++ rest).length (by simp; omega) (by simp; omega)
+    simp only [List.take_succ_cons, List.take_zero] at hgrow
+    rw [hgrow]
+    simp only [hlook]
+
 /-! ## the hypotheses are satisfiable, the statements are not vacuous -/
 
 /-- a romaniser `a > A`, a `+` romaniser on nasals and `$ > *` on a two-syllable word -/
